@@ -427,3 +427,38 @@ Theorem C13_checked_hypotheses_sound :
   forall e s o, (env_wf_b e = true -> env_wf e) /\ (op_ok_b e s o = true -> op_ok e o /\ op_mono s o).
 Proof. intros e s o. split; [apply env_wf_b_sound|apply op_ok_b_sound]. Qed.
 Print Assumptions C13_checked_hypotheses_sound.
+
+(** * the message level (types/msg.go ValidateBasic, keeper/msg_server.go) *)
+
+(* [msg_step e s o]: operation [o] delivered as a message -- ValidateBasic
+   (timestamp and height span positive, a positive amount), then the keeper call
+   the msg server makes, with crossChain = true. *)
+
+(* A message that succeeds is that keeper call: every theorem above about a
+   successful [step] is a theorem about successful messages. *)
+Theorem C13_msg_success_is_keeper_success :
+  forall e s o s' u, msg_step e s o = Ok s' u ->
+  msg_validate_basic o = true /\ step e s (as_msg o) = Ok s' u.
+Proof. exact msg_step_ok. Qed.
+Print Assumptions C13_msg_success_is_keeper_success.
+
+(* A message refused by ValidateBasic fails and changes nothing. *)
+Theorem C13_msg_refused_changes_nothing :
+  forall e s o, msg_validate_basic o = false -> msg_step e s o = Err /\ msg_step' e s o = s.
+Proof. exact msg_step_refused. Qed.
+Print Assumptions C13_msg_refused_changes_nothing.
+
+(* The invariant holds after every history that mixes keeper calls and messages. *)
+Theorem C13_invariant_all_mixed_histories :
+  forall e l s, env_wf e -> Forall (fun mo => op_ok e (snd mo)) l -> Inv e s -> Inv e (mixed_run e s l).
+Proof. intros e l s. exact (mixed_run_inv e l s). Qed.
+Print Assumptions C13_invariant_all_mixed_histories.
+
+(* What the glue adds to the keeper: a swap created by a message has a positive
+   height span and timestamp (the keeper alone accepts an incoming swap of span 0). *)
+Theorem C13_msg_create_span_positive :
+  forall e s h ts span sender recip soc coins cross s' u,
+  msg_step e s (Create h ts span sender recip soc coins cross) = Ok s' u -> 0 < span /\ 0 < ts.
+Proof. exact msg_create_span_positive. Qed.
+Print Assumptions C13_msg_create_span_positive.
+
